@@ -6,6 +6,7 @@
 #include <rime/service.h>
 #include <rime/algo/fs.h>
 #include <rime/config/config_compiler.h>
+#include <rime/config/config_cow_ref.h>
 #include <rime/config/config_types.h>
 #include <rime/config/plugins.h>
 
@@ -18,10 +19,12 @@ bool BuildInfoPlugin::ReviewCompileOutput(ConfigCompiler* compiler,
 
 bool BuildInfoPlugin::ReviewLinkOutput(ConfigCompiler* compiler,
                                        an<ConfigResource> resource) {
-  auto build_info = (*resource)["__build_info"];
-  build_info["rime_version"] = RIME_VERSION;
+  // the root map may be shared with a node of another resource (root-level
+  // `__include: other:/` or a `/=` patch); do not write through the shared map
+  auto build_info = Cow(resource, "__build_info");
+  (*build_info)["rime_version"] = RIME_VERSION;
 #ifndef RIME_NO_TIMESTAMP
-  auto timestamps = build_info["timestamps"];
+  auto timestamps = (*build_info)["timestamps"];
   compiler->EnumerateResources([&](an<ConfigResource> resource) {
     if (!resource->loaded) {
       LOG(INFO) << "resource '" << resource->resource_id << "' not loaded.";
